@@ -26,10 +26,12 @@ theorem op_table_injective : ∀ a b : IntrinsicOp, opForm a = opForm b → opFo
   intro a b; cases a <;> cases b <;> decide
 
 /-- the expansion of the two forms, the `Sequence` fold, the `Cast` arm and the ternary arm of the source have the
-shape `Model.GenHlsl` mirrors (textual facts re-extracted on every run). -/
+shape `Model.GenHlsl` mirrors, and so has the label handling of `generate_scope_block` / `generate_statement`
+(textual facts re-extracted on every run). -/
 theorem exporter_shape_as_modelled :
     unaryFormAsModelled = true ∧ binaryFormAsModelled = true ∧ sequenceRightNested = true ∧
-    sequenceAssertsTwo = true ∧ castDropsOnlyLiteralTargets = true ∧ ternaryInOrder = true := by decide
+    sequenceAssertsTwo = true ∧ castDropsOnlyLiteralTargets = true ∧ ternaryInOrder = true ∧
+    scopeBlockAsModelled = true ∧ labelsEmittedEmpty = true := by decide
 
 /-- **literals**: whatever `generate_literal` emits for a constant has the constant's value, and its static type is the
 constant's type — except that a typed `Int32` constant becomes an *unsuffixed* literal (static type "literal int"),
